@@ -1,4 +1,4 @@
-(* C15: computechi2 returns the weighted least-squares optimum, its covariance is the inverse of A^T W A. *)
+(* C15: computechi2_ref returns the weighted least-squares optimum, its covariance is the inverse of A^T W A. *)
 From Coq Require Import QArith Qabs Lqa List Bool Lia ZArith.
 From PV Require Import Lib.WLS C13.LinAlg C13.LinAlgProofs C15.Model.
 Import ListNotations.
@@ -20,7 +20,7 @@ Proof. induction sq; simpl; constructor; [apply sqr_nonneg | assumption]. Qed.
 Lemma cc_data_wf A sq b : rows_len (ncols A) A -> wf (ncols A) (cc_data A sq b).
 Proof. intros H. unfold cc_data. apply wf_combine; [exact H | apply map_sqr_nonneg]. Qed.
 
-Lemma computechi2_inv b sq A r : computechi2 b sq A = Some r ->
+Lemma computechi2_inv b sq A r : computechi2_ref b sq A = Some r ->
   let nstar := ncols A in
   let D := cc_data A sq b in
   let mm := mred (normal_mat nstar D) in
@@ -28,7 +28,7 @@ Lemma computechi2_inv b sq A r : computechi2 b sq A = Some r ->
     r = {| c_acoeff := a; c_chi2 := cc_chi2 A sq b a; c_yfit := mat_vec A a;
            c_dof := cc_dof sq nstar; c_covar := cov; c_var := diag cov |}.
 Proof.
-  intros H nstar D mm. unfold computechi2 in H. fold nstar in H. fold D in H. fold mm in H.
+  intros H nstar D mm. unfold computechi2_ref in H. fold nstar in H. fold D in H. fold mm in H.
   destruct (solve_checked mm _) as [a|] eqn:E1; [|discriminate].
   destruct (inverse_checked mm) as [cov|] eqn:E2; [|discriminate].
   inversion H; subst. exists a, cov. repeat split; auto.
@@ -43,7 +43,7 @@ Qed.
 
 (* chi2_optimal: the returned coefficients minimise sum_i sqivar_i^2 (A_i . x - b_i)^2 over all x;
    no hypothesis on the weights is needed (they are squares) *)
-Theorem chi2_optimal b sq A r : computechi2 b sq A = Some r -> rows_len (ncols A) A ->
+Theorem chi2_optimal b sq A r : computechi2_ref b sq A = Some r -> rows_len (ncols A) A ->
   length (c_acoeff r) = ncols A /\
   forall z, length z = ncols A -> chi2 (cc_data A sq b) (c_acoeff r) <= chi2 (cc_data A sq b) z.
 Proof.
@@ -51,14 +51,14 @@ Proof.
   apply (wls_solve_optimal (ncols A) (cc_data A sq b) a (cc_data_wf A sq b HA)). exact E1.
 Qed.
 
-Theorem chi2_value b sq A r : computechi2 b sq A = Some r -> c_chi2 r == chi2 (cc_data A sq b) (c_acoeff r).
+Theorem chi2_value b sq A r : computechi2_ref b sq A = Some r -> c_chi2 r == chi2 (cc_data A sq b) (c_acoeff r).
 Proof.
   intros H. destruct (computechi2_inv b sq A r H) as [a [cov [E1 [E2 Er]]]]. subst r. simpl. apply cc_chi2_is_chi2.
 Qed.
 
 (* covar_is_inverse: covar * (A^T W A) = I = (A^T W A) * covar, entry by entry (the matrix is the reduced
    representation mm of normal_mat, equal to it entry-wise) *)
-Theorem covar_is_inverse b sq A r : computechi2 b sq A = Some r ->
+Theorem covar_is_inverse b sq A r : computechi2_ref b sq A = Some r ->
   let N := normal_mat (ncols A) (cc_data A sq b) in
   exists mm, meq mm N /\ meq (mat_mul (c_covar r) mm) (identity (length mm)) /\
              meq (mat_mul mm (c_covar r)) (identity (length mm)).
@@ -68,18 +68,18 @@ Proof.
   destruct (inverse_checked_sound _ _ E2) as [I1 [I2 _]]. split; assumption.
 Qed.
 
-Theorem var_is_diag b sq A r : computechi2 b sq A = Some r -> c_var r = diag (c_covar r).
+Theorem var_is_diag b sq A r : computechi2_ref b sq A = Some r -> c_var r = diag (c_covar r).
 Proof. intros H. destruct (computechi2_inv b sq A r H) as [a [cov [E1 [E2 Er]]]]. subst r. reflexivity. Qed.
 
-Theorem dof_spec b sq A r : computechi2 b sq A = Some r ->
+Theorem dof_spec b sq A r : computechi2_ref b sq A = Some r ->
   c_dof r = (Z.of_nat (length (filter (fun s => Qlt_bool 0 s) sq)) - Z.of_nat (ncols A))%Z.
 Proof. intros H. destruct (computechi2_inv b sq A r H) as [a [cov [E1 [E2 Er]]]]. subst r. reflexivity. Qed.
 
-Theorem yfit_spec b sq A r : computechi2 b sq A = Some r -> c_yfit r = mat_vec A (c_acoeff r).
+Theorem yfit_spec b sq A r : computechi2_ref b sq A = Some r -> c_yfit r = mat_vec A (c_acoeff r).
 Proof. intros H. destruct (computechi2_inv b sq A r H) as [a [cov [E1 [E2 Er]]]]. subst r. reflexivity. Qed.
 
 (* the normal equations hold at the returned coefficients: the gradient of chi2 vanishes in every direction *)
-Theorem chi2_gradient_zero b sq A r : computechi2 b sq A = Some r -> rows_len (ncols A) A ->
+Theorem chi2_gradient_zero b sq A r : computechi2_ref b sq A = Some r -> rows_len (ncols A) A ->
   forall d, gdot (cc_data A sq b) (c_acoeff r) d == 0.
 Proof.
   intros H HA d. destruct (computechi2_inv b sq A r H) as [a [cov [E1 [E2 Er]]]]. subst r. simpl.
